@@ -50,9 +50,12 @@ func H_ChiConc() {
 		res[id].panicked, _ = guard(func() { engine.ServeHTTP(&rw{}, req) })
 	}
 	vrt.RaceDetect(true)
+	// G2: up to g2 involuntary switches in front of the container's own lock / atomic / sync.Map operations
+	vrt.G2(vrt.Param("g2", 0))
 	vrt.Go("req0", func() { serve(0) })
 	vrt.Go("req1", func() { serve(1) })
 	vrt.WaitAll()
+	vrt.G2(0)
 	vrt.Cover("both_served")
 	for id := 0; id < 2; id++ {
 		r := res[id]
